@@ -92,7 +92,7 @@ def main():
             "engine": "rvverif",
             "level_claimed": {"category": "exploration", "text": text, "design_ref": f"DESIGN.md section {ref}"},
             "level_note": note,
-            "technique": tech,
+            "technique": tech + ("" if "libFuzzer" in tech else "; the thorough tier adds a coverage-guided libFuzzer campaign (cargo-fuzz target lint_choices: fuzz bytes -> choice sequence -> the same generator and oracle)"),
         })
     na = [{"property_id": i, "reason": NOT_YET.get(i, "check not built yet (work in progress; see DESIGN.md section 8 for the order of work)")}
           for i in ids if i not in CHECKS]
